@@ -283,6 +283,9 @@ func OpenReadableWritable(rw ReaderAtWriterAt, roots []cid.Cid, opts ...carv2.Op
 
 func (sc *StorageCar) init() (WritableCar, error) {
 	if !sc.opts.WriteAsCarV1 {
+		if ptw, ok := sc.writer.(*positionTrackingWriter); ok {
+			internalio.VerifTrace(ptw.w, "writeat", 0, carv2.Pragma) // no-op unless built with the verif tag
+		}
 		if _, err := sc.writer.Write(carv2.Pragma); err != nil {
 			return nil, err
 		}
